@@ -158,6 +158,21 @@ def ReleaseOk (H : History) (S : List Region) (M : List (Nat × Meta)) (r : Regi
 instance (H S M r v S' M') : Decidable (ReleaseOk H S M r v S' M') :=
   inferInstanceAs (Decidable (_ ∧ _ ∧ _ ∧ _))
 
+/-! ### the answer, at the server's stream interface -/
+
+/-- a heartbeat arriving on stream `sender`; `errOn` = the streams on which an error answer was seen afterwards.
+    A heartbeat that must be refused is answered with an error **on the stream it came from** and nothing changes;
+    an error answer means nothing changed; without one the served set is the old one or the old one with the
+    region put -/
+def StreamOk (H : History) (S : List Region) (r : Region) (sender : String) (errOn : List String)
+    (S' : List Region) : Prop :=
+  NoOverlap S' ∧ NoRegress H S' ∧
+  (MustReject S r → errOn = [sender]) ∧
+  (errOn ≠ [] → S' = S ∧ errOn = [sender]) ∧
+  (errOn = [] → S' = S ∨ S' = put S r)
+instance (H S r sender errOn S') : Decidable (StreamOk H S r sender errOn S') :=
+  inferInstanceAs (Decidable (_ ∧ _ ∧ _ ∧ _ ∧ _))
+
 inductive Ev where
   /-- one heartbeat at a time -/
   | hb (r : Region) (v : Verdict) (S' : List Region) (M' : List (Nat × Meta))
@@ -170,6 +185,8 @@ inductive Ev where
   | gate (r : Region) (o : GateOut) (S' : List Region) (M' : List (Nat × Meta))
   /-- … and let go later -/
   | release (r : Region) (v : Verdict) (S' : List Region) (M' : List (Nat × Meta))
+  /-- a heartbeat sent on a server stream (storage is not observed here) -/
+  | stream (r : Region) (sender : String) (errOn : List String) (S' : List Region)
 
 /-- the property over a trace -/
 def Holds : History → List Region → List (Nat × Meta) → List Ev → Prop
@@ -180,6 +197,7 @@ def Holds : History → List Region → List (Nat × Meta) → List Ev → Prop
   | H, S, M, .flush M' :: es => FlushOk S M M' ∧ Holds H S M' es
   | H, S, M, .gate r o S' M' :: es => GateOk H S M r o S' M' ∧ Holds (record H S') S' M' es
   | H, S, M, .release r v S' M' :: es => ReleaseOk H S M r v S' M' ∧ Holds (record H S') S' M' es
+  | H, S, M, .stream r sender errOn S' :: es => StreamOk H S r sender errOn S' ∧ Holds (record H S') S' M es
 
 def check : History → List Region → List (Nat × Meta) → List Ev → Bool
   | _, _, _, [] => true
@@ -189,6 +207,7 @@ def check : History → List Region → List (Nat × Meta) → List Ev → Bool
   | H, S, M, .flush M' :: es => decide (FlushOk S M M') && check H S M' es
   | H, S, M, .gate r o S' M' :: es => decide (GateOk H S M r o S' M') && check (record H S') S' M' es
   | H, S, M, .release r v S' M' :: es => decide (ReleaseOk H S M r v S' M') && check (record H S') S' M' es
+  | H, S, M, .stream r sender errOn S' :: es => decide (StreamOk H S r sender errOn S') && check (record H S') S' M es
 
 theorem check_iff (H : History) (S : List Region) (M : List (Nat × Meta)) (es : List Ev) :
     check H S M es = true ↔ Holds H S M es := by
@@ -202,5 +221,6 @@ theorem check_iff (H : History) (S : List Region) (M : List (Nat × Meta)) (es :
     | flush M' => simp [check, Holds, ih]
     | gate r o S' M' => simp [check, Holds, ih]
     | release r v S' M' => simp [check, Holds, ih]
+    | stream r sender errOn S' => simp [check, Holds, ih]
 
 end PdModel.Spec.C06
